@@ -388,6 +388,9 @@ TIES = {
     'StreamSentry': dict(props=['C18'], gen=['StreamSentryCtor', 'StreamSentryDtor'],
                          theorems=['sentry_ctor_establishes', 'sentry_dtor_restores', 'stream_sentry_dtor_order'],
                          cxx='stream_sentry constructor and destructor (mock.hpp)'),
+    'RangeLoops': dict(props=['C11'], gen=['IncludesElements', 'IncludesRange', 'IsPermutationElements', 'IsPermutationRange'],
+                       theorems=['includes_elements_eq', 'includes_range_eq', 'is_permutation_elements_eq', 'is_permutation_range_eq'],
+                       cxx='the first-fit loops of range_includes / range_is_permutation (matcher/range.hpp)'),
     'HandleIsOptional': dict(props=['C05'], theorems=['is_optional_tie'], cxx='sequence_matcher::is_optional (sequence.hpp)'),
 }
 
